@@ -10,7 +10,7 @@ Correspondence, two parts:
  (b) documents: the same paragraphs inside real documents, saved with pretty in {F,T,default} x packaging in {zip, folder,
      xml} in sequences; after every save the file is re-read independently and Coq checks: memory unchanged (strict,
      generator masked), file = memory (layout-insensitive projection when pretty), flat XML = the model's."""
-import sys, os, json, random, itertools, copy, hashlib
+import os, sys, json, random, itertools, copy, hashlib
 from pathlib import Path
 sys.path.insert(0, str(Path(__file__).resolve().parent))
 import common, pkglib
@@ -215,6 +215,19 @@ def make_histories_factory(pars):
             hs.append([dict(op="open", src=s, buf=True), dict(op="save", packaging="folder", target="path", pretty=True), dict(op="reopen", r=1),
                        dict(op="save", packaging="zip", target="buf", pretty=True)])
         starts = [dict(op="new", src=p, template=t) for t, p in Tm.items()] * 3 + [dict(op="open", src=s, buf=b) for s in S for b in (False, True)]
+        small = sorted(S, key=os.path.getsize)
+        # pretty save -> edits through handles obtained before it -> pretty save again (zip and folder), next to a plain save of the same memory
+        hs += pkglib.resave_histories([starts[0], dict(op="open", src=small[3], buf=False), dict(op="open", src=small[6], buf=True)], rng)
+        extra_flat = pkglib.flat_image_histories(S, Tm["text"], tier)
+        # comments / processing instructions outside the root element of a part: layout changes, they stay (plain and pretty, zip and folder)
+        XMLS = ["content.xml", "styles.xml", "meta.xml", "settings.xml"]
+        for pk, tg in (("zip", "buf"), ("folder", "path")):
+            for pty in (False, True):
+                extra_flat.append([dict(op="buildopen", base=small[1], extra=[], dress=XMLS, doctype=pty, buf=not pty), dict(op="touch", name="styles.xml"),
+                                   dict(op="edit", name="content.xml", how="par", arg="x"), dict(op="save", packaging=pk, target=tg, pretty=pty), dict(op="reopen", r=1),
+                                   dict(op="touch", name="styles.xml")])
+                extra_flat.append([dict(starts[0])] + [dict(op="set", name=n, variant=4) for n in XMLS] + [dict(op="touch", name="content.xml"), dict(op="touch", name="meta.xml"),
+                                   dict(op="save", packaging=pk, target=tg, pretty=pty), dict(op="save", packaging="zip", target="buf", pretty=False)])
         for _ in range(60 if tier == "quick" else 1500):
             h = pkglib.gen_history(rng, starts, WEIGHTS, rng.randint(3, 8))
             for o in h:
@@ -224,7 +237,8 @@ def make_histories_factory(pars):
         # the frames of the generated paragraphs (and of 'frame' edits) point to this part: the flat export embeds it
         for h in hs:
             h.insert(1, dict(op="import", name="Pictures/none.png", data="\x89PNG none", mt="image/png"))
-        return hs
+        # flat export of lazily opened documents with packaged pictures (nothing inserted after the open: the parts stay unread)
+        return hs + extra_flat
     return make_histories
 
 
@@ -292,7 +306,10 @@ def run(tier, seed, replay=None):
             "the ODF 1.2 section 6.1.2 consumer as modelled in WS.consume (shared with C05); elements other than text:span / text:a / text:meta / text:meta-field / text:s / text:tab / text:line-break are objects in the text flow",
             "modelled in PrettyTree.v: pretty_indent (container.py) over trees of elements; TEXT_CONTENT re-read from the source into Gen_TextContent.v on this run (ast, fail closed); textwrap.fill of office:binary-data is abstract; comments / processing instructions are outside the tree model"],
         rule="(a) trees: every element kind of %s alone with 6 text contexts, every ordered pair with nothing / text / a space between, inside span / a / meta, random mixes of 1-6 pieces, groups of 25, and content/styles/meta/settings of every sample, each through the implementation's pretty_indent on a copy; (b) documents: chunks of 40 generated paragraphs in a text document x packaging {zip buf, zip path, folder, xml path, xml buf} x pretty sequences {F},{T},{default},{T,F},{F,T},{T,T},{default,F,T}, every sample pretty/plain/folder/flat, random histories over %s. distinct = distinct trees (a) + distinct (op, pre-state) (b)" % (sorted(ATOMS), sorted(WEIGHTS)),
-        assumptions=["the white-space reading fixed in DESIGN.md section 5/C05", "generator stamp masked", "standard namespace prefixes (pretty_indent decides on prefix:localname)"],
+        assumptions=["the white-space reading fixed in DESIGN.md section 5/C05", "generator stamp masked", "standard namespace prefixes (pretty_indent decides on prefix:localname)",
+                     "comments / processing instructions outside the root element of a part are content (direct comparison after every zip / folder save); the DOCTYPE is not compared; a flat export has no place for them",
+                     "flat export: every draw:image of the content part naming a packaged part is embedded with exactly that part's bytes"],
+        extra_prefixes=("save-",),
         nontrivial_kinds=("save", "edit", "open", "new", "set", "clone"), extra_targets=("PkgChk", "C11Chk"), post_hook=post_hook)
 
 
